@@ -110,11 +110,11 @@ func compareResolved(got shared.Elements, want map[string]*big.Rat) string {
 
 func checkC01(w *Worker) {
 	k, L := 3, 2
-	coefs := []float64{2, -1}
+	coefs := []float64{1, -2} // the multiplicative identity and a negative non-unit
 	depthOpts := 1
 	budgets := map[string]int{}
 	if w.Tier == "thorough" {
-		coefs = []float64{2, -1, 0.5, 0}
+		coefs = []float64{1, -2, 0.5, 0}
 		depthOpts = 2
 	}
 	leaves := []string{"x", "y"}
@@ -322,14 +322,14 @@ func checkC01(w *Worker) {
 		}
 	}
 	w.appInit()
-	w.Explore("dag-through-files-and-commands", ExploreOpts{ShardDepth: 5}, appBody(3, 2, []float64{2, -1}))
+	w.Explore("dag-through-files-and-commands", ExploreOpts{ShardDepth: 5}, appBody(3, 2, []float64{1, -2}))
 	budgets["env:maporder2"] = 0 // the idempotence pass runs under sorted order (quick) ...
 	if w.Tier == "thorough" {
 		budgets["env:maporder2"] = 1
 	}
 	w.Explore(fmt.Sprintf("dag-k%d-L%d", k, L), ExploreOpts{ShardDepth: 4, Budgets: budgets}, body(k, L, coefs))
 	if w.Tier == "thorough" {
-		w.Explore("dag-k4-L2", ExploreOpts{ShardDepth: 4, Budgets: map[string]int{"env:maporder2": 0}}, body(4, 2, []float64{2, -1}))
-		w.Explore("dag-k2-L4", ExploreOpts{ShardDepth: 4, Budgets: map[string]int{"env:maporder2": 1}}, body(2, 4, []float64{2, -1, 0.5, 0}))
+		w.Explore("dag-k4-L2", ExploreOpts{ShardDepth: 4, Budgets: map[string]int{"env:maporder2": 0}}, body(4, 2, []float64{1, -2}))
+		w.Explore("dag-k2-L4", ExploreOpts{ShardDepth: 4, Budgets: map[string]int{"env:maporder2": 1}}, body(2, 4, []float64{1, -2, 0.5, 0, 2}))
 	}
 }
